@@ -117,7 +117,7 @@ void icpK3Witness(vf::Ctx & c)
 
 // ---------------------------------------------------------------------------------------------------------
 template<class PT>
-void runRansac(vf::Ctx & c, int n, double sigma, double outlierFraction, double motionScale, uint64_t seed, const char * tn)
+void runRansac(vf::Ctx & c, int n, double sigma, double outlierFraction, double motionScale, uint64_t seed, const char * tn, bool permuteTargets)
 {
   constexpr int D = PointTraits<PT>::DIM;
   constexpr int SIZE = PointTraits<PT>::SIZE;
@@ -165,7 +165,16 @@ void runRansac(vf::Ctx & c, int n, double sigma, double outlierFraction, double 
     int j = static_cast<int>(rng.below(k + 1));
     std::swap(src[k], src[j]); std::swap(tgt[k], tgt[j]);
   }
-  for (int k = 0; k < n; ++k) {corr.emplace_back(static_cast<size_t>(k), static_cast<size_t>(k));}
+  // correspondences: identity pairing, or the target set stored in another order (pair k = (k, perm[k]))
+  std::vector<int> perm(n);
+  for (int k = 0; k < n; ++k) {perm[k] = k;}
+  if (permuteTargets) {
+    for (int k = n - 1; k > 0; --k) {std::swap(perm[k], perm[static_cast<int>(rng.below(k + 1))]);}
+    PointSet<PT> stored(tgt.size());
+    for (int k = 0; k < n; ++k) {stored[perm[k]] = tgt[k];}
+    tgt = stored;
+  }
+  for (int k = 0; k < n; ++k) {corr.emplace_back(static_cast<size_t>(k), static_cast<size_t>(perm[k]));}
 
   RansacRigidTransformationModel<PT> model;
   model.loadPointSets(&src, &tgt);
@@ -194,6 +203,8 @@ void ransacBody(vf::Ctx & c)
   double frac = ok == 0 ? 0.0 : (ok == 1 ? c.s.uni("outlier_fraction", 0.0, 0.3) : c.s.uni("outlier_fraction", 0.2, 0.3));
   double motion = c.s.pick("motion_class", {1, 3, 2}) == 0 ? 0.0 : c.s.r("motion_scale", 0.0, 1.0);
   uint64_t seed = c.s.seed("content_seed");
+  bool permuted = c.s.flag("target_order_permuted");
+  if (permuted) {c.label("target-set-stored-in-another-order");}
   static const char * tn[] = {"Vector2d", "HomogeneousCoordinates2d", "Vector3d", "HomogeneousCoordinates3d"};
   c.label(tn[type]);
   if (frac >= 0.05) {c.label(">=5%-outliers");}
@@ -202,10 +213,10 @@ void ransacBody(vf::Ctx & c)
   c.nontrivial(frac >= 0.05);
   c.commit();
   switch (type) {
-    case 0: runRansac<Eigen::Vector2d>(c, n, sigma, frac, motion, seed, tn[0]); break;
-    case 1: runRansac<HomogeneousCoordinates2d>(c, n, sigma, frac, motion, seed, tn[1]); break;
-    case 2: runRansac<Eigen::Vector3d>(c, n, sigma, frac, motion, seed, tn[2]); break;
-    default: runRansac<HomogeneousCoordinates3d>(c, n, sigma, frac, motion, seed, tn[3]); break;
+    case 0: runRansac<Eigen::Vector2d>(c, n, sigma, frac, motion, seed, tn[0], permuted); break;
+    case 1: runRansac<HomogeneousCoordinates2d>(c, n, sigma, frac, motion, seed, tn[1], permuted); break;
+    case 2: runRansac<Eigen::Vector3d>(c, n, sigma, frac, motion, seed, tn[2], permuted); break;
+    default: runRansac<HomogeneousCoordinates3d>(c, n, sigma, frac, motion, seed, tn[3], permuted); break;
   }
 }
 
@@ -219,7 +230,8 @@ const std::vector<vf::Sub> kSubs = {
   {"ransac", ransacBody,
     "40..400 pairs uniform in a 20 m box (2-D or 3-D, Cartesian or homogeneous double), sigma in [0.005,0.03], inlier noise "
     "N(0,(0.3 sigma)^2), outlier fraction 0 / U[0,0.3] / U[0.2,0.3] with each outlier displaced 10.5..50 sigma in a random "
-    "direction, motion up to 0.5 m and 0.2 rad, fresh RansacRigidTransformationModel (SVD mode) + Ransac per case. "
+    "direction, motion up to 0.5 m and 0.2 rad, identity pairing or target set stored in a permuted order, fresh "
+    "RansacRigidTransformationModel (SVD mode) + Ransac per case. "
     "Non-trivial: >= 5 % outliers."},
 };
 
